@@ -102,6 +102,7 @@ type checkCtx struct {
 	undecidedOK map[string]string // frontier: obligation name -> reason (sweeps only)
 	provedLedger map[string]bool
 	useLedger bool
+	generated map[string]bool
 }
 
 type directResult struct {
@@ -142,6 +143,7 @@ func runCheck(repo, prop, tier string, rest []string) int {
 	if err := e.loadContracts(theoryDir); err != nil {
 		return fail2("cannot read contracts: %v", err)
 	}
+	e.computeWrittenKeys()
 	findings, err := loadFindings()
 	if err != nil {
 		return fail2("known_findings.txt: %v", err)
@@ -197,6 +199,9 @@ func runCheck(repo, prop, tier string, rest []string) int {
 		timeout, _ = strconv.Atoi(t)
 	}
 	dischargeAll(c.jobs, timeout, false)
+	if os.Getenv("VERIF_WRITE_LEDGER") != "" && c.useLedger {
+		writeLedger(prop, c.jobs)
+	}
 
 	// classify
 	var discharged, total int
@@ -245,10 +250,15 @@ func runCheck(repo, prop, tier string, rest []string) int {
 			total-- // known findings are reported separately, not counted as claimed obligations
 			continue
 		}
-		if c.useLedger && !c.provedLedger[o.Name] && o.Result != "sat" {
-			undecided = append(undecided, o.Name)
-			total--
-			continue
+		if c.useLedger && !c.provedLedger[o.Name] {
+			// a sweep obligation that is not in the ledger of proved obligations: it is a violation only when it
+			// replaces a proved obligation of the same function and kind that is no longer generated (edited code);
+			// otherwise it is undecided and not claimed
+			if !c.replacesProved(o) {
+				undecided = append(undecided, o.Name)
+				total--
+				continue
+			}
 		}
 		if reason, ok := c.undecidedOK[o.Name]; ok {
 			undecided = append(undecided, o.Name+" ("+reason+")")
@@ -416,6 +426,28 @@ func (c *checkCtx) addGen(g *gen, keep func(*Obligation) bool) {
 	}
 }
 
+// addGenNoCover registers obligations of a sweep function (vacuity of the synthesised entry assumption is
+// checked once per function through the same entry cover)
+func (c *checkCtx) addGenNoCover(g *gen, keep func(*Obligation) bool) {
+	c.gens = append(c.gens, g)
+	for a := range g.assumed {
+		c.assumed[a] = true
+	}
+	n := 0
+	for _, o := range g.obls {
+		if keep == nil || keep(o) {
+			c.jobs = append(c.jobs, job{g, o})
+			n++
+		}
+	}
+	if n > 0 {
+		c.funcs[g.key] = true
+		for _, o := range g.exitCovers() {
+			c.jobs = append(c.jobs, job{g, o})
+		}
+	}
+}
+
 // exitCovers: one reachability cover for the function entry (requires + theories consistent).
 func (g *gen) exitCovers() []*Obligation {
 	var out []*Obligation
@@ -429,6 +461,22 @@ func (g *gen) exitCovers() []*Obligation {
 		idx = i + 1
 	}
 	out = append(out, &Obligation{Name: g.key + "/cover/entry", Func: g.key, Kind: "cover", cmdIdx: idx, Guard: "true", Claim: "true", Cover: true})
+	// some return must be reachable under everything that was assumed on the way (assumed callee
+	// postconditions, theories, invariants): a contradiction anywhere would make later proofs vacuous
+	var rs []string
+	for _, b := range g.fn.Blocks {
+		if len(b.Instrs) == 0 {
+			continue
+		}
+		if _, ok := b.Instrs[len(b.Instrs)-1].(*ssa.Return); ok {
+			if r, ok := g.reach[b]; ok {
+				rs = append(rs, r)
+			}
+		}
+	}
+	if len(rs) > 0 {
+		out = append(out, &Obligation{Name: g.key + "/cover/some-return-reachable", Func: g.key, Kind: "cover", cmdIdx: len(g.cmds), Guard: or(rs...), Claim: "true", Cover: true})
+	}
 	return out
 }
 
@@ -492,4 +540,22 @@ func (c *checkCtx) checkReadonlyGlobals() {
 		}
 		c.direct = append(c.direct, &directResult{Name: "global/" + name + "/written-only-by-initializer", OK: len(writers) == 0, Detail: "stores to " + name + " outside the package initializer: " + strings.Join(writers, ", ")})
 	}
+}
+
+// replacesProved: some obligation of the same function and kind is recorded as proved in the ledger but is not
+// generated any more - the code at that place was edited and the edited version does not discharge.
+func (c *checkCtx) replacesProved(o *Obligation) bool {
+	if c.generated == nil {
+		c.generated = map[string]bool{}
+		for _, j := range c.jobs {
+			c.generated[j.o.Name] = true
+		}
+	}
+	prefix := o.Func + "/" + o.Kind + "/"
+	for name := range c.provedLedger {
+		if strings.HasPrefix(name, prefix) && !c.generated[name] {
+			return true
+		}
+	}
+	return false
 }
